@@ -103,10 +103,10 @@ Lemma point_sum_leaves st st' : lpv st' = lpv st ->
 Proof.
   intros H1. induction d as [|[k w] d IH]; intro acc; cbn [point_sum]; [reflexivity|].
   rewrite (leafP_leaves st st') by assumption. destruct (leafP st k); [|reflexivity].
-  destruct (np_iadd acc (vscale w a)); [apply IH|reflexivity].
+  destruct acc as [a0|]; [|apply IH]. destruct (np_add a0 (vscale w a)); [apply IH|reflexivity].
 Qed.
 Lemma point_compute_leaves m st st' d : lpv st' = lpv st -> point_compute m st' d = point_compute m st d.
-Proof. intros. unfold point_compute. apply point_sum_leaves; assumption. Qed.
+Proof. intros. unfold point_compute. rewrite (point_sum_leaves st st') by assumption. reflexivity. Qed.
 
 (** the same, from pointwise equality of the leaf lookups (appending an unassigned leaf changes no lookup) *)
 Definition leaf_eq (st st' : est) : Prop :=
@@ -129,10 +129,25 @@ Proof. intros. unfold expr_compute. apply expr_sum_ext; assumption. Qed.
 Lemma point_sum_ext st st' : leaf_eq st st' -> forall d acc, point_sum st' acc d = point_sum st acc d.
 Proof.
   intros [H1 _]. induction d as [|[k w] d IH]; intro acc; cbn [point_sum]; [reflexivity|].
-  rewrite H1. destruct (leafP st k); [|reflexivity]. destruct (np_iadd acc (vscale w a)); [apply IH|reflexivity].
+  rewrite H1. destruct (leafP st k); [|reflexivity].
+  destruct acc as [a0|]; [|apply IH]. destruct (np_add a0 (vscale w a)); [apply IH|reflexivity].
 Qed.
 Lemma point_compute_ext m st st' d : leaf_eq st st' -> point_compute m st' d = point_compute m st d.
-Proof. intros. unfold point_compute. apply point_sum_ext; assumption. Qed.
+Proof. intros. unfold point_compute. rewrite (point_sum_ext st st') by assumption. reflexivity. Qed.
+
+(** only the empty combination looks at the length [m] of the null vector *)
+Lemma point_sum_Some st : forall d a, exists r, point_sum st (Some a) d = r /\ r <> Ok None.
+Proof.
+  induction d as [|[k w] d IH]; intro a; cbn [point_sum]; [eexists; split; [reflexivity|discriminate]|].
+  destruct (leafP st k); [|eexists; split; [reflexivity|discriminate]].
+  destruct (np_add a (vscale w a0)); [apply IH|eexists; split; [reflexivity|discriminate]].
+Qed.
+Lemma point_compute_m m m' st d : d <> [] -> point_compute m st d = point_compute m' st d.
+Proof.
+  intro H. unfold point_compute. destruct d as [|[k w] d]; [congruence|]. cbn [point_sum].
+  destruct (leafP st k); [|reflexivity]. destruct (point_sum_Some st d (vscale w a)) as (r & -> & Hr).
+  destruct r as [[v|]|]; try reflexivity. congruence.
+Qed.
 
 (** ** store lemmas *)
 Lemma nth_error_upd_nth {A} (f : A -> A) n : forall (l : list A) m,
@@ -360,14 +375,16 @@ Qed.
 (** the value: with coherent caches, [eval] returns the cache-free value *)
 Lemma eval_obj_value m st r st' x o :
   eval_obj st r = (st', x) -> get_obj st r = Some o -> good m st r ->
-  (forall d, okind_of o = KPoint d -> ocache o = None -> m = length (lpv st)) ->
+  (okind_of o = KPoint [] -> ocache o = None -> m = length (lpv st)) ->
   x = pure_obj m st (okind_of o).
 Proof.
   unfold eval_obj. intros H Ho [Cr Ce] Hm. rewrite Ho in H.
   destruct (ocache o) as [v|] eqn:Hc.
   { injection H as <- <-. symmetry. apply (Cr o v Ho Hc). }
   specialize (Ce o). destruct (okind_of o) as [d|d|e s|mm] eqn:Hk; cbn [pure_obj].
-  - rewrite <- (Hm d eq_refl eq_refl) in H. destruct (point_compute m st d); injection H as <- <-; reflexivity.
+  - assert (E : point_compute (length (lpv st)) st d = point_compute m st d).
+    { destruct d as [|kw d]; [rewrite (Hm eq_refl eq_refl); reflexivity|apply point_compute_m; discriminate]. }
+    rewrite E in H. destruct (point_compute m st d); injection H as <- <-; reflexivity.
   - destruct (expr_compute st d); injection H as <- <-; reflexivity.
   - destruct (eval_eh st e) as [st1 x1] eqn:H1. apply eval_eh_spec in H1 as [_ P1].
     rewrite <- P1 by (apply Ce; [exact Ho|left; reflexivity]).
@@ -420,7 +437,7 @@ Qed.
 
 Lemma eval_obj_good m st r st' x y :
   eval_obj st r = (st', x) -> good m st y ->
-  (y = r -> forall o d, get_obj st r = Some o -> okind_of o = KPoint d -> ocache o = None ->
+  (y = r -> forall o, get_obj st r = Some o -> okind_of o = KPoint [] -> ocache o = None ->
             m = length (lpv st)) ->
   good m st' y.
 Proof.
@@ -431,7 +448,10 @@ Proof.
   destruct (okind_of o) as [d|d|e s|mm] eqn:Hk.
   - destruct (point_compute (length (lpv st)) st d) as [u|] eqn:Hp; injection H as <- <-; [|exact G].
     apply (good_set_cache m st r (VVec u) y o Ho G).
-    + intros ->. rewrite Hk. cbn [pure_obj]. rewrite (Hm eq_refl o d eq_refl Hk Hc), Hp. reflexivity.
+    + intros ->. rewrite Hk. cbn [pure_obj].
+      assert (E : point_compute m st d = point_compute (length (lpv st)) st d).
+      { destruct d as [|kw d]; [rewrite (Hm eq_refl o eq_refl Hk Hc); reflexivity|apply point_compute_m; discriminate]. }
+      rewrite E, Hp. reflexivity.
     + intros d' Hk'. congruence.
   - destruct (expr_compute st d) as [q|] eqn:Hq; injection H as <- <-; [|exact G].
     apply (good_set_cache m st r (VNum q) y o Ho G); intros; rewrite Hk; cbn [pure_obj]; rewrite Hq; reflexivity.
